@@ -99,11 +99,14 @@ Definition weq (a b : world) : Prop :=
 (* wrap_function / wrap_generator (one resume) / wrap_coroutine (run to the end) /
    `with profiler:` all have the shape
        enable_by_count(); try: BODY finally: disable_by_count()
-   = `Block BODY`.  `Seq a b` runs b unless a raised; `Raise` raises; `Catch b` is user
-   code swallowing whatever b raises; `Skip` stands for the operations on a wrapped
-   generator that run no profiled step (create, drop, close, throw into a suspended
-   wrapper, next() of an exhausted one).  `exec` gives the by-count operations that
-   actually run, in order, and whether an exception leaves the construct. *)
+   = `Block BODY`.  One resume of a wrapped generator is such a block around g.send(x); so
+   is the turn that forwards close() / throw() / the finalisation of a dropped, suspended
+   wrapper into the wrapped generator (g.throw(exc) between the same pair).  `Seq a b` runs
+   b unless a raised; `Raise` raises; `Catch b` is user code swallowing whatever b raises;
+   `Skip` stands for the operations that run no step at all (creating a wrapped generator,
+   closing / dropping one that was never started, next() of an exhausted one).  `exec`
+   gives the by-count operations that actually run, in order, and whether an exception
+   leaves the construct. *)
 Inductive op :=
 | Prim (p : prim)
 | Skip
